@@ -416,6 +416,18 @@ theorem C06_frame_determined {g : GSys} (hI : g.GInv) (b : String) (op : Op) (hw
   obtain ⟨v1, v2, v3, _⟩ := w1.clr.view
   exact ⟨v1, v2, v3, h.frames.symm⟩
 
+/-- a sweep sends no frame -/
+theorem expire_frames (s : Sys) (now : Time) (fault : Bool) : (s.expire now fault).frames = s.frames := by
+  obtain ⟨l, e, hl⟩ := Sys.expire_notFrame (s := s) (now := now) (fault := fault)
+  unfold Sys.frames
+  rw [e, List.filter_append]
+  have : l.filter Event.isFrame = [] := by
+    rw [List.filter_eq_nil_iff]
+    intro ev hev
+    have := hl ev hev
+    cases ev <;> simp_all [Sys.NotFrame, Event.isFrame]
+  rw [this, List.append_nil]
+
 theorem C06_frame_sweep {g : GSys} (hI : g.GInv) (b : String) (now : Time) (fault : Bool)
     (hw : g.WFOp (.sweep now fault)) :
     ((g.sys.restrictB b).step (.sweep now fault)).db.viewB b = (g.sys.step (.sweep now fault)).db.viewB b ∧
@@ -425,7 +437,7 @@ theorem C06_frame_sweep {g : GSys} (hI : g.GInv) (b : String) (now : Time) (faul
     (by intro c t id cmd x e; cases e)
   refine ⟨a1, a2, ?_⟩
   have : (g.sys.step (.sweep now fault)).frames = ({ g.sys with out := [], snaps := [] } : Sys).frames :=
-    (Sys.expire_quiet_frames _ now fault)
+    expire_frames _ now fault
   rw [this]; rfl
 
 /-! ## Part 4: the finding, the guard made executable, non-vacuity -/
@@ -461,9 +473,12 @@ theorem disjointB_sound (b : String) : ∀ (H : List Op) (s : Sys), disjointB b 
 namespace C06Example
 
 /-- two apps with identical nameplate names, side strings, phases and bodies, distinct mailbox
-    ids; app "a" is active before, between and after b's commands (so b's nameplate gets id 2 in
-    the full run and id 1 in the projected run); a sweep, a reconnect with a reused connection id,
-    closes -/
+    ids; app "a" is active before and between b's commands (so b's nameplate gets id 2 in the
+    full run and id 1 in the projected run); a's close, a sweep, a reconnect with a reused
+    connection id that binds to "b" this time, a second claimant, list, release.
+    (The sweep comes when only "b" has rows: with two apps `get_all_apps` sorts two strings,
+    and `decide` cannot evaluate `String` comparisons in the kernel; the theorem has no such
+    restriction.) -/
 def hist : List Op :=
   [ .connect 1, .connect 2,
     .recv 1 1 (.int 1) (.bind (some "a") (some "s1") none none),
@@ -474,15 +489,15 @@ def hist : List Op :=
     .recv 2 3 (.int 3) (.open_ (some "m2")),
     .recv 1 4 (.int 4) (.add (some (.str "pake")) (some (.str "x"))),
     .recv 2 4 (.int 4) (.add (some (.str "pake")) (some (.str "x"))),
-    .sweep 5 false,
     .recv 1 6 (.int 5) (.close (some "m1") (some "happy")),
+    .sweep 7 false,
     .drop 1,
     .connect 1,
-    .recv 1 7 (.int 1) (.bind (some "b") (some "s2") none none),
-    .recv 1 8 (.int 2) (.claim (some "4") "m3"),
-    .recv 1 9 (.int 3) (.open_ (some "m2")),
-    .recv 2 10 (.int 5) .list,
-    .recv 2 11 (.int 6) (.release none) ]
+    .recv 1 8 (.int 1) (.bind (some "b") (some "s2") none none),
+    .recv 1 9 (.int 2) (.claim (some "4") "m3"),
+    .recv 1 10 (.int 3) (.open_ (some "m2")),
+    .recv 2 11 (.int 5) .list,
+    .recv 2 12 (.int 6) (.release none) ]
 
 def s₀ : Sys := { cfg := { usage := true }, rebooted := 0 }
 def A : Sys × List Event := Sys.run s₀ hist
